@@ -1142,8 +1142,120 @@ fn fam(k: usize) -> (&'static str, &'static str) {
     [("sync", "sync"), ("async", "async"), ("sync", "async"), ("async", "sync")][k % 4]
 }
 
+/// cases shared by the archive-level properties: contents that a shortcut in the content hash would confuse, equal
+/// contents exactly 2^32 ids apart, very many contents of one length
+fn shared_store_cases(prop: &str, rng: &mut Rng, quick: bool, st: &mut Stats, c: &mut Vec<String>) {
+    let push = |c: &mut Vec<String>, k: usize, a: String, b: Option<String>| {
+        let (w, r) = fam(k);
+        let m = &w[..1];
+        let (a, b) = (a.replace("{M}", m), b.map(|x| x.replace("{M}", m)));
+        match prop {
+            "C01" => c.push(format!("chk_roundtrip {w} {r} {a}")),
+            "C02" => c.push(format!("chk_valid {w} {a}")),
+            "C04" => c.push(format!("chk_hist_map {w} {a};s:{m}:{m}")),
+            "C10" => c.push(format!("chk_dedup {w} {a}")),
+            "C16" => {
+                if let Some(b) = b {
+                    c.push(format!("chk_canonical {w} {a} {b}"));
+                }
+            }
+            _ => {}
+        }
+    };
+    // large contents of equal length that differ in ONE byte far from both ends (and from any sampled window)
+    let sizes: &[usize] = if quick { &[17_000, 300_000] } else { &[17_000, 70_000, 300_000, 600_001, 1_100_000] };
+    for (k, &n) in sizes.iter().enumerate() {
+        let base = rng.bytes(n);
+        let mut mid = base.clone();
+        mid[n / 2] ^= 0x20;
+        let mut q = base.clone();
+        q[n / 4 + 3] ^= 1;
+        let (a, b, d) = (hex_bytes(&base), hex_bytes(&mid), hex_bytes(&q));
+        let m = "{M}";
+        // all in memory; then: one stored, archive reopened, the twin added (reader-backed vs in-memory)
+        if prop == "C16" {
+            // the same two (three) tiles added in either order, in memory and with one of them reader-backed
+            push(c, k, format!("c:none;a:5:{a};a:6:{b}"), Some(format!("c:none;a:6:{b};a:5:{a}")));
+            push(c, k + 1, format!("c:none;a:5:{a};s:{m}:{m};a:6:{b}"), Some(format!("c:none;a:6:{b};s:{m}:{m};a:5:{a}")));
+            push(c, k, format!("c:none;a:5:{a};a:6:{d};a:9:{b}"), Some(format!("c:none;a:9:{b};a:6:{d};a:5:{a}")));
+        } else {
+            // all in memory; then: one stored, archive reopened, the twin added (reader-backed vs in-memory)
+            push(c, k, format!("c:none;a:5:{a};a:6:{b};a:9:{d};a:c:{a}"), None);
+            push(c, k + 1, format!("c:none;a:5:{a};a:7:0102;s:{m}:{m};a:6:{b};a:9:{d}"), None);
+        }
+        st.bump("large_contents_differing_in_one_middle_byte");
+    }
+    // equal contents whose ids are exactly 2^32 + run apart
+    for (k, (dist, run)) in [(1u64 << 32, 3u64), (1 << 32, 1), (2 << 32, 2)].iter().enumerate() {
+        let ca = "0a0b0c0d0e";
+        let mut ops: Vec<String> = (0..*run).map(|i| format!("a:{:x}:{ca}", 10 + i)).collect();
+        ops.push(format!("a:{:x}:{ca}", 10 + dist + run));
+        ops.push(format!("a:{:x}:{ca}", 10 + dist + run + 1));
+        let mut rev = ops.clone();
+        rev.reverse();
+        push(c, k, ops.join(";"), Some(rev.join(";")));
+        st.bump("equal_contents_2pow32_ids_apart");
+    }
+    // very many distinct contents of one length, the first one used again at the end
+    if prop != "C16" {
+        // (C10: more than 2^20 contents, whatever the tier: a bounded dedup table would forget the first ones)
+        let n: u64 = if quick && prop != "C10" { 300_000 } else { 1_100_000 };
+        c.push(format!("chk_many_contents {} {n:x}", if prop == "C04" || prop == "C10" { "async" } else { "sync" }));
+        st.bump("many_distinct_contents_of_one_length");
+    }
+}
+/// n tiles with distinct 5-byte contents, then two more tiles repeating the first and the middle content; saved, checked
+/// by the specification-level reader (every tile, and no content stored twice), reopened and looked up
+fn chk_many_contents(mode: &str, n: u64) -> Result<(), String> {
+    let mut st = fresh(mode == "async");
+    let content = |i: u64| -> Vec<u8> { vec![(i >> 24) as u8, (i >> 16) as u8, (i >> 8) as u8, i as u8, 0x5a] };
+    let mut want: BTreeMap<u64, Vec<u8>> = BTreeMap::new();
+    let mut add = |st: &mut St, id: u64, d: Vec<u8>| -> Result<(), String> {
+        want.insert(id, d.clone());
+        match st {
+            St::S(p) => p.add_tile(id, d),
+            St::A(p) => p.add_tile(id, d),
+        }
+        .map_err(|e| format!("add_tile: {e}"))
+    };
+    for i in 0..n {
+        add(&mut st, 2 * i, content(i))?;
+    }
+    add(&mut st, 2 * n + 7, content(0))?;
+    add(&mut st, 2 * n + 9, content(n / 2))?;
+    let b = write_bytes(st)?;
+    let v = spec::parse(&b, true).map_err(|e| format!("the written archive is not a valid PMTiles v3 file: {e}"))?;
+    if v.header.data_len != 5 * n || v.header.contents != n {
+        return Err(format!("{n} distinct contents of 5 bytes (two of them used twice) are stored as {} contents in {} bytes", v.header.contents, v.header.data_len));
+    }
+    let all = spec::all_tiles(&v, 10_000_000)?;
+    if all.len() != want.len() {
+        return Err(format!("the directories address {} tiles, {} were added", all.len(), want.len()));
+    }
+    let mut bad = 0u64;
+    let mut first_bad = None;
+    for (id, ol) in &all {
+        if want.get(id).map(|c| &c[..]) != Some(spec::tile_bytes(&b, &v.header, *ol)?) {
+            bad += 1;
+            first_bad.get_or_insert(*id);
+        }
+    }
+    if bad > 0 {
+        return Err(format!("{bad} of {} tiles come back with another tile's content (first: tile {})", all.len(), first_bad.unwrap_or(0)));
+    }
+    let mut back = reopen(mode == "async", b, FULL)?;
+    for id in [0u64, 2, 2 * (n / 2), 2 * n - 2, 2 * n + 7, 2 * n + 9] {
+        if get(&mut back, id)?.as_ref() != want.get(&id) {
+            return Err(format!("lookup of tile {id} after reopening returns other bytes than were added"));
+        }
+    }
+    Ok(())
+}
 pub fn gen(prop: &str, rng: &mut Rng, quick: bool, st: &mut Stats) -> Option<Vec<String>> {
     let mut c: Vec<String> = Vec::new();
+    if ["C01", "C02", "C04", "C10", "C16"].contains(&prop) {
+        shared_store_cases(prop, rng, quick, st, &mut c);
+    }
     match prop {
         "C01" | "C02" => {
             let chk = if prop == "C01" { "chk_roundtrip" } else { "chk_valid" };
@@ -1935,6 +2047,10 @@ pub fn run_chk(toks: &[&str]) -> Option<String> {
                 }
                 Ok(())
             })
+        }
+        ["chk_many_contents", mode, n] => {
+            let n = unhex_u64(n);
+            guard_chk(|| chk_many_contents(mode, n))
         }
         ["chk_dedup", mode, ops] => guard_chk(|| chk_dedup(mode, ops)),
         ["chk_dedup_run", mode, n] => {
